@@ -115,3 +115,26 @@ Example C14_collect_edges_witness :
   abs 0 (fst (fst (mrun_gen true true true 1 3 (r_heap, book0) [MRead QEdges; MRead QEdges]))) 2 = abs 0 r_heap 2.
 Proof. split; [vm_compute; discriminate|vm_compute; reflexivity]. Qed.
 Print Assumptions C14_collect_edges_witness.
+
+(* the class of seeded change C14-m7: a MIDDLE-level circuit (2) owns an edge with a path-valued attribute between the nodes of
+   its leaf circuit (1); getters on the top level (3), on the middle level and again on the top level leave every template as
+   it was, and the top-level getter returns the attribute with the full prefix m/l/C/op/x both times *)
+Definition mid_heap : heap :=
+  [OOp "op" ["d/dt * x = k*r + g + u"%string]
+       [("x"%string, Sc (mkq 1 4)); ("k"%string, Sc (mkq 1 2)); ("r"%string, Sc (mkq 2 1)); ("g"%string, Sc (mkq 1 1)); ("u"%string, Sc (mkq 0 1))];
+   ONode [(0, [])];
+   OCirc [("A"%string, 1); ("B"%string, 1); ("C"%string, 1)] [];
+   OCirc [("l"%string, 2)]
+         [("l/A/op/x"%string, "l/B/op/u"%string, [("weight"%string, Sc (mkq 2 1)); ("et/eop/t_ref"%string, Ref "l/C/op/x")])];
+   OCirc [("m"%string, 3)] []].
+Definition mid_ops : list mop := [MRead QEdges; MSubEdges ["m"%string]; MRead QEdges].
+Example C14_middle_level_edges :
+  let res := mrun 2 4 (mid_heap, book0) mid_ops in
+  abs 1 (fst (fst res)) 3 = abs 1 mid_heap 3 /\ abs 2 (fst (fst res)) 4 = abs 2 mid_heap 4 /\
+  nth 0 (snd res) RDone = nth 2 (snd res) RDone /\
+  nth 0 (snd res) RDone =
+    REdges (Some [("m/l/A/op/x"%string, "m/l/B/op/u"%string, [("weight"%string, Sc (mkq 2 1)); ("et/eop/t_ref"%string, Ref "m/l/C/op/x")])]) /\
+  (* the seeded mechanism (= the model before fix D98) rewrites the middle level's own dictionary *)
+  abs 1 (fst (fst (mrun_gen true true false 2 4 (mid_heap, book0) [MRead QEdges]))) 3 <> abs 1 mid_heap 3.
+Proof. repeat split; try (vm_compute; reflexivity). vm_compute. discriminate. Qed.
+Print Assumptions C14_middle_level_edges.
